@@ -101,7 +101,7 @@ def run(ctx):
 
 
 MANIFEST = dict(
-    text='Decides the structural necessary conditions on gdstk\'s side of offsetting: complete OffsetJoin -> JoinType table; MiterLimit only under Miter and ArcTolerance (in grid units, distance x scaling x (1 - cos(pi/tolerance))) only under Round; the offsetter receives distance x scaling with the same scaling used for coordinates in and out; the union pre-pass runs exactly under use_union, precedes the offset and replaces (not supplements) the original paths; the result tree is walked completely, hole linking multiplies grid differences in floating point (no 64-bit wrap) and conversions round with llround. The distance semantics of ClipperOffset is not decided.',
+    text='Decides the structural necessary conditions on gdstk\'s side of offsetting: complete OffsetJoin -> JoinType table; MiterLimit only under Miter and ArcTolerance (in grid units, distance x scaling x (1 - cos(pi/tolerance))) only under Round; the offsetter receives distance x scaling with the same scaling used for coordinates in and out; the union pre-pass runs exactly under use_union, precedes the offset and replaces (not supplements) the original paths; the result tree is walked completely, hole linking multiplies grid differences in floating point (no 64-bit wrap) and conversions round with llround. The distance semantics of ClipperOffset is not decided. The join table and the tolerance routing are evaluated per join type (minieval.value_at), the union pre-pass condition is read from the `if` that encloses the union call; link_holes by the interpretation shared with C05 (sampled scenes).',
     note='Trusted: clang front end, gx, sa rules; external/clipper is out of the analysed set.',
-    technique='table extraction + unit/shape rules + ordering (pairing) rule over typed ASTs',
+    technique='table extraction + unit/shape rules + ordering (pairing) rule over typed ASTs + value_at tables + interpretation of link_holes on enumerated scenes (shared with C05)',
     design='§4 C13')
